@@ -31,6 +31,8 @@ type Case struct {
 	FixedKey  string
 	FixedVals []string
 	FixedText string
+	// ProjectFirst: the result is projected through the fixed-list projection before it is filtered
+	ProjectFirst bool
 	// FailedParse, if non-empty, is a projection expression with a fixed list followed by an
 	// invalid field; it is offered to Parse with the filter first and must be rejected
 	// without changing what the filter keeps.
@@ -95,9 +97,20 @@ func Check(c Case) (v vcase.Verdict) {
 	fixedOK := true
 	if c.FixedKey != "" {
 		var pp benchproc.ProjectionParser
-		if _, err := pp.Parse(c.FixedText, f); err != nil {
+		proj, err := pp.Parse(c.FixedText, f)
+		if err != nil {
 			v.Failf("Parse(%q): %v", c.FixedText, err)
 			return
+		}
+		if c.ProjectFirst {
+			// the result is projected before (regardless of) being filtered, e.g. to tally what a
+			// filter rejects; the filter's meaning must not depend on what was projected so far
+			k1 := proj.Project(res)
+			if k2 := proj.Project(res); k1 != k2 {
+				v.Failf("projection %q: the same result projected twice gives different keys", c.FixedText)
+				return
+			}
+			v.Label("projected_before_filtering")
 		}
 		val := refexpr.Extract(ref, c.FixedKey)
 		fixedOK = false
@@ -375,6 +388,7 @@ func Gen(t *rapid.T) Case {
 			ws = append(ws, strconv.Quote(x))
 		}
 		c.FixedText = strconv.Quote(c.FixedKey) + "@(" + strings.Join(ws, " ") + ")"
+		c.ProjectFirst = rapid.Bool().Draw(t, "projectfirst")
 	}
 	return c
 }
